@@ -49,6 +49,14 @@ FAMILIES = {
     "rwm":              (40, None),
     "atk_rdata":        (20, None),
     "atk_rnolock":      (16, None),     # a handler that writes its answer without the write lock
+    # a transport write fails although the transport stays open (write deadline inside net.Conn.Write / other error)
+    # after a proper prefix of the bytes was accepted: inside a control frame, a data frame's header+buffer, between
+    # / inside the two writes of a data frame, inside the answer of a handler on the reading goroutine
+    "flt_ctl":          (40, None),
+    "flt_hdr":          (32, None),
+    "flt_extra":        (40, 800),
+    "flt_extra_t":      (6, None),
+    "atk_flt":          (25, None),     # ... and is not made sticky: somebody writes behind the truncated frame
 }
 THOROUGH_ONLY = {
     "free":           1500,     # every lock hand-off order, not only first-come-first-served
@@ -58,6 +66,10 @@ THOROUGH_ONLY = {
     "atk_timeout2":   300,
     "rcustbig":       800,
     "atk_rdata_client": None,
+    "flt_ctl_e":      None,
+    "flt_rd":         None,
+    "flt_two":        None,
+    "atk_flt_hdr":    None,
 }
 SIMULATED = {"sim": (4000, 120), "simclient": (1500, 100), "simreader": (1500, 140), "simrclient": (800, 120)}   # cfg -> (behaviours, depth)
 
@@ -87,7 +99,7 @@ def _validate(ctx, trace_path, name, chunks=1):
         with open(p, "w") as f:
             f.writelines(parts[k])
         info = ctx.tlc(SUB, "Trace_WsConc", "Trace_WsConc.cfg", name="%s_%d" % (name, k), files={"trace.ndjson": p},
-                       workers=1, timeout=1500)
+                       workers=1, timeout=1500, jopts=["-Xmx3g"])
         m = re.search(r'<<\s*"TRACE",\s*"(\[[\[\]\d,\s]*\])"\s*>>', open(info["log"]).read(), re.S)
         if not m:
             raise vlib.Broken("Trace_WsConc did not report its POSTCONDITION (log %s)" % info["log"])
@@ -180,7 +192,7 @@ def run(ctx):
                 "more programs (among them: the reader answering the peer's Ping and Close by a default and an application handler "
                 "while the writer's application pauses with its message open); GEN: every schedule (sequence of call begins and transport operations) the model allows for the cfg "
                 "programs under eager internal steps (call begins, frames of the peer reaching the reader, transport operations, the "
-                "writer's application going on), plus attack schedules from the six deviation models, sampled by seed in the quick "
+                "writer's application going on), plus attack schedules from the seven deviation models, sampled by seed in the quick "
                 "tier with all decisive schedules kept; each is forced on a real Conn over a gated transport under -race and the recorded "
                 "execution is accepted by Trace_WsConc; distinct = distinct schedule JSON")
     ctx.exhaustive = not quick
@@ -194,6 +206,11 @@ def run(ctx):
         "that call WriteControl without deadline); the peer's frames are well-formed; the application pauses only between two "
         "calls on its open message (after NextWriter, after a Write)",
         "the transport's Write is atomic (one call = one contiguous byte range) and fails once Conn.Close closed it",
+        "transport faults other than that: chosen single writes (control frame, data header+buffer, data `extra`, handler answer) fail "
+        "with the transport still open after it accepted a proper prefix (half of the bytes; nothing only for a later part of a frame), "
+        "with a timeout net.Error or a plain error; required is only what the wire shows - the frame left incomplete is the end of the "
+        "stream and the failed call and all later ones return an error (which one is not judged; a failure before the first byte of a "
+        "frame is not driven)",
         "how many transport writes a frame takes is the library's choice (data frame: header+buffer and the caller's slice; control "
         "frame: 1..k adjacent writes, the first holding the frame header): read from the recorded execution, the generator predicts one "
         "write per control frame and the scheduler lets the further parts follow at once; a transport close between the parts of any "
@@ -224,10 +241,12 @@ def run(ctx):
           ("MC_WsConc_timeoutrel_lock.cfg", "LockOK"),
           ("MC_WsConc_reader.cfg", None), ("MC_WsConc_rdata.cfg", "MsgIntact"),
           # control frames that reach the transport in two adjacent writes; a foreign write between them
-          ("MC_WsConc_ctl2.cfg", None), ("MC_WsConc_ctl2_nolock.cfg", "WholeFrames")]
+          ("MC_WsConc_ctl2.cfg", None), ("MC_WsConc_ctl2_nolock.cfg", "WholeFrames"),
+          # transport writes that fail with the transport open; the failure not made sticky
+          ("MC_WsConc_fault.cfg", None), ("MC_WsConc_fault2.cfg", None), ("MC_WsConc_fault_nolatch.cfg", "CutIsLast")]
     if not quick:
         mc += [("MC_WsConc_twoclose.cfg", None), ("MC_WsConc_big.cfg", None), ("MC_WsConc_timeoutbig.cfg", None),
-               ("MC_WsConc_readerbig.cfg", None), ("MC_WsConc_reader2.cfg", None), ("MC_WsConc_ctl2big.cfg", None)]
+               ("MC_WsConc_readerbig.cfg", None), ("MC_WsConc_reader2.cfg", None), ("MC_WsConc_ctl2big.cfg", None), ("MC_WsConc_faultbig.cfg", None)]
     fams = dict((f, n[0] if quick else n[1]) for f, n in FAMILIES.items())
     if not quick:
         fams.update(THOROUGH_ONLY)
@@ -235,12 +254,12 @@ def run(ctx):
     def run_mc(job):
         cfg, viol = job
         if viol:
-            return ctx.tlc(SUB, "MC_WsConc", cfg, expect_violation=viol, count_states=False, workers=2)
-        return ctx.tlc(SUB, "MC_WsConc", cfg, workers=4, coverage=not quick, timeout=1500)
+            return ctx.tlc(SUB, "MC_WsConc", cfg, expect_violation=viol, count_states=False, workers=2, jopts=["-Xmx1g"])
+        return ctx.tlc(SUB, "MC_WsConc", cfg, workers=4, coverage=not quick, timeout=1500, jopts=["-Xmx3g"])
 
     def run_gen(f):
         p = os.path.join(ctx.out, "gen_%s.ndjson" % f)
-        ctx.tlc(SUB, "Gen_WsConc", "Gen_WsConc_%s.cfg" % f, cases_to=p, count_states=False, workers=2, timeout=1500)
+        ctx.tlc(SUB, "Gen_WsConc", "Gen_WsConc_%s.cfg" % f, cases_to=p, count_states=False, workers=2, timeout=1500, jopts=["-Xmx2g"])
         return f, p
 
     with ThreadPoolExecutor(10) as ex:
@@ -252,7 +271,7 @@ def run(ctx):
     if not quick:
         for f, (num, depth) in SIMULATED.items():
             p = os.path.join(ctx.out, "gen_%s.ndjson" % f)
-            ctx.tlc(SUB, "Gen_WsConc", "Gen_WsConc_%s.cfg" % f, cases_to=p, simulate=num, depth=depth, workers=1, timeout=1500)
+            ctx.tlc(SUB, "Gen_WsConc", "Gen_WsConc_%s.cfg" % f, cases_to=p, simulate=num, depth=depth, workers=1, timeout=1500, jopts=["-Xmx1g"])
             gen[f] = p
             fams[f] = None
 
@@ -366,6 +385,7 @@ def run(ctx):
         "frames_of_the_peer_handled_by_the_reader": sum(i.get("rd_calls", 0) for i in infos),
         "of_them_with_D_paused_with_its_message_open": sum(i.get("rd_open_app", 0) for i in infos),
         "of_them_with_D_inside_a_flush": sum(i.get("rd_open_write", 0) for i in infos),
+        "transport_writes_failed_with_the_transport_open": sum(i.get("faults", 0) for i in infos),
     }
     ctx.notes["trace_validation"] = {"schedules_accepted": len(hw) - len(rejected), "schedules_rejected": len(rejected),
                                      "rejected_only_by_the_specification": tlc_only,
@@ -376,3 +396,5 @@ def run(ctx):
                       or ctx.notes["replay"]["of_them_with_D_inside_a_flush"] == 0):
         raise vlib.Broken("no frame of the peer reached the reader while the data writer had its message open "
                           "(application paused / inside a flush): the replay did not exercise the reader's handlers")
+    if clean_run and ctx.notes["replay"]["transport_writes_failed_with_the_transport_open"] == 0:
+        raise vlib.Broken("no transport write was made to fail with the transport open: the replay did not exercise the sticky write error")
